@@ -380,3 +380,78 @@ REG.spec('raptor/worker_default.py:DefaultWorker._result_cb',
       ('earlier-answers-kept', 'forall(lambda k: implies(0 <= k < len(old(put_log)), put_log[k] == old(put_log)[k]))'),
     ],
     serves = ['C20'])
+
+
+# ------------------------------------------------------------------------------
+# Master._submit_tasks: routing by task mode
+#
+from pyvc.frontend import ModuleEnv as _ME
+REG.consts.setdefault('TASK_EXECUTABLE', _ME.get('task_description.py').lookup('TASK_EXECUTABLE'))
+SDescM = T.Rec('SubDescM', mode=OStr)
+REG.optional_keys['SubDescM'] = {'mode'}
+SubTask = T.Rec('SubTask', uid=T.Str, description=SDescM, task_sandbox=OStr, task_sandbox_path=OStr)
+REG.optional_keys['SubTask'] = {'task_sandbox', 'task_sandbox_path'}
+SubTaskL = T.List(SubTask)
+
+def _route_to(logname):
+    def h(ex, node, st):
+        ts = _coerce(ex.ev(node.args[0], st), SubTaskL)
+        log = ex.get_var(st, logname)
+        lty = log.ty
+        n, l0 = SubTaskL.len(ts.term), lty.len(log.term)
+        i = _z3.Int(_C.fresh_name('i'))
+        out = ex.fresh_wf(st, lty, logname)
+        st.assume(lty.len(out.term) == l0 + n)
+        st.assume(_z3.ForAll([i], _z3.Implies(_z3.And(0 <= i, i < l0),
+                  _z3.Select(lty.arr(out.term), i) == _z3.Select(lty.arr(log.term), i))))
+        st.assume(_z3.ForAll([i], _z3.Implies(_z3.And(l0 <= i, i < l0 + n),
+                  _z3.Select(lty.arr(out.term), i) == SubTask.get(_z3.Select(SubTaskL.arr(ts.term), i - l0), 'uid')),
+                  patterns=[_z3.Select(lty.arr(out.term), i)]))
+        st.env[logname] = out
+        return _C.NONE
+    h.mutates = (logname,)
+    return h
+
+def _sbox_of(ex, node, st):
+    t = ex.ev(node.args[0], st)
+    return _Val(T.Str, _z3.Function('session!task_sandbox', t.ty.sort(), _C.StrSort)(t.term))
+_sbox_of.mutates = ()
+
+def _url_path(ex, node, st):
+    a = _coerce(ex.ev(node.args[0], st), T.Str)
+    UrlP = T.Rec('MUrlP', path=T.Str)
+    return _Val(UrlP, UrlP.mk(_z3.Function('url!path', _C.StrSort, _C.StrSort)(a.term)))
+_url_path.mutates = ()
+
+REG.define('is_exec(t)', 't.description.mode is None or val(t.description.mode) == TASK_EXECUTABLE')
+
+REG.spec('raptor/master.py:Master._submit_tasks',
+    params   = dict(tasks=SubTaskL),
+    self     = dict(_psbox=T.Str),
+    ghost    = dict(exec_log=T.List(T.Str), raptor_log=T.List(T.Str), epos=T.Map(T.Int, T.Int), rpos=T.Map(T.Int, T.Int)),
+    locals   = dict(raptor_tasks=SubTaskL, executable_tasks=SubTaskL, mode=OStr, sbox=T.Str),
+    calls    = {'ru.as_list': lambda ex, node, st: ex.ev(node.args[0], st),
+                'self._session._get_task_sandbox': _sbox_of, 'ru.Url': _url_path,
+                'self._submit_executable_tasks': _route_to('exec_log'), 'self._submit_raptor_tasks': _route_to('raptor_log')},
+    stmt_ghost = {},
+    modifies = ['tasks', 'exec_log', 'raptor_log', 'epos', 'rpos'],
+    raises   = {},
+    ensures  = [
+      ('every-request-goes-one-way', '(len(exec_log) - len(old(exec_log))) + (len(raptor_log) - len(old(raptor_log))) == len(tasks)'),
+      ('executable-requests-take-the-pilots-execution-path-in-order',
+       'forall(lambda k: implies(len(old(exec_log)) <= k < len(exec_log), exists(lambda i: 0 <= i < len(tasks) and '
+       'tasks[i].uid == exec_log[k] and is_exec(old(tasks)[i]))))'),
+      ('function-like-requests-go-to-the-workers',
+       'forall(lambda k: implies(len(old(raptor_log)) <= k < len(raptor_log), exists(lambda i: 0 <= i < len(tasks) and '
+       'tasks[i].uid == raptor_log[k] and not is_exec(old(tasks)[i]))))'),
+      ('earlier-routes-kept', 'forall(lambda k: implies(0 <= k < len(old(exec_log)), exec_log[k] == old(exec_log)[k])) and '
+                              'forall(lambda k: implies(0 <= k < len(old(raptor_log)), raptor_log[k] == old(raptor_log)[k]))'),
+    ],
+    loops = {'1': ['len(tasks) == len(old(tasks))', 'exec_log == old(exec_log)', 'raptor_log == old(raptor_log)',
+                   'len(executable_tasks) + len(raptor_tasks) == i_task',
+                   'forall(lambda i: implies(0 <= i < len(tasks), tasks[i].uid == old(tasks)[i].uid and tasks[i].description == old(tasks)[i].description))',
+                   'forall(lambda k: implies(0 <= k < len(executable_tasks), exists(lambda i: 0 <= i < i_task and '
+                   'tasks[i].uid == executable_tasks[k].uid and is_exec(old(tasks)[i]))))',
+                   'forall(lambda k: implies(0 <= k < len(raptor_tasks), exists(lambda i: 0 <= i < i_task and '
+                   'tasks[i].uid == raptor_tasks[k].uid and not is_exec(old(tasks)[i]))))']},
+    serves = ['C20'])
